@@ -6,6 +6,7 @@ CONSTANTS
   CliIds = {1,2,3}
   SrvIds = {1,2}
   TrackObs = FALSE
+  TrackDeps = FALSE
   Dev = "none"
   SetupPlan <- Route_SetupPlan
   RegPlan <- Route_RegPlan
@@ -26,6 +27,7 @@ CONSTANTS
   MutPlan <- Route_MutPlan
   Splice = FALSE
   Reloads = FALSE
+  ExtFail = FALSE
   MaxFree = 100
 INVARIANT Agreement
 INVARIANT ClientAcceptsOnlyMatched
